@@ -91,6 +91,36 @@ def o13_5_table_cache(mir, tier):
         res.absorb(ex)
         for pcx, msg, where in ex.panics:
             res.panic_paths += 1; res.violations.append({'label': 'panic path: ' + msg[:80], 'replay': None, 'confirmed_by': {'reproduced': False, 'detail': 'no native scenario'}})
+    # ---- TableCache::get: a table that cannot be opened is an error of the lookup, never "the key is not in this table"
+    getf = mir.method('TableCache', 'get')
+    S = lib.std_summaries(); P = S['$patterns']
+    found_ok = Bool('find_table_ok'); err_kind = BitVec('open_error_kind', 8)
+    def find(se, env, pc, tc, n):
+        st = dict(env['$state']); st['asked'] = st['asked'] + [n]
+        from z3 import ULE
+        e_io = Enum('Err', (Enum('IO', ({'kind': 'io', '__ty': 'io::Error'},), 'ReadError'),)); e_parse = Enum('Err', (Enum('FailedToParse', ({'str': 'bad footer'},), 'ReadError'),))
+        return [(found_ok, Enum('Ok', ({'table_of': n},)), st), (And(Not(found_ok), err_kind == 0), e_io, st), (And(Not(found_ok), err_kind != 0), e_parse, st)]
+    P[r'TableCache::find_table'] = find
+    P[r'<Arc<(?:table::)?Table> as Deref>::deref'] = lib.ident
+    def tget(se, env, pc, t, ro, key):
+        tv = t
+        while isinstance(tv, Ref): tv = se.deref(env, tv)
+        return lib.one(env, Enum('Ok', (Enum('Some', ({'answer_of_table': tv['table_of']},)),)))
+    P[r'(?:table::)?Table::get'] = tget
+    P[r'<Result<.*> as FromResidual<Result<Infallible, .*>>>::from_residual'] = lambda se, env, pc, r: lib.one(env, r)
+    ex = Exec(mir, S, loop_bound=3, opaque_calls_ok=True)
+    num = BitVec('file_number', 64)
+    def kg(ret, env, pc):
+        ok = isinstance(ret, Enum) and ret.tag == 'Ok'
+        notfound = isinstance(ret, Enum) and ret.tag == 'Err' and isinstance(ret.fields[0], Enum) and ret.fields[0].tag == 'KeyNotFound'
+        posts = [('a lookup in a table that could not be opened does not report the error (answering "not in this table" lets the read fall through to an older table: a superseded value or a deleted key comes back)', BoolVal(ok) == found_ok),
+                 ('a table that could not be opened is reported as "key not found"', BoolVal(not notfound))]
+        if ok: posts.append(('the lookup is answered by another table than the one asked for', ret.fields[0].fields[0]['answer_of_table'] == num))
+        res.cases['get -> %s' % (ret.fields[0].tag if isinstance(ret, Enum) and ret.tag == 'Err' and isinstance(ret.fields[0], Enum) else getattr(ret, 'tag', '?'))] = 1
+        for label, post, m in ex.check_posts(posts, pc):
+            res.violations.append({'label': label, 'model': {'open_ok': bool(mval(m, found_ok)), 'io_error': mval(m, err_kind) == 0}, 'replay': ['get_unopenable_newest']})
+    ex.top(getf, [Ref('$tc'), {'abstract': True, '__ty': 'ReadOptions'}, num, {'abstract': 'key'}], {'$state': {'asked': []}, '$tc': mir.mk_struct('TableCache', options={'abstract': True}, cache='cache', file_name_handler='names', filesystem_provider='fs')}, [], kg)
+    res.absorb(ex)
     res.wall_s = time.time() - t0
     if res.violations: res.status = 'violation'
     return res
@@ -99,4 +129,7 @@ def o13_5_table_cache(mir, tier):
 def o13_5_confirm(v, out):
     """Native: real tables with the model's numbers and neighbouring numbers; a fresh table cache is asked for them in turn."""
     if out.get('_rc') != 0: return (True, 'native run failed / panicked: %s' % out.get('_stderr', '')[-300:])
+    if v['replay'][0] == 'get_unopenable_newest':
+        g = out.get('get_with_unopenable_newest', '')
+        return (g.startswith('Ok(v1') or g.startswith('Ok(v2') or 'KeyNotFound' in g, 'native: the newest table (holding v3) cannot be opened (cold table cache): get answers %s; once it can be opened again: %s' % (g, out.get('get_afterwards')))
     return (out.get('got') != out.get('asked'), 'native: tables asked for %s, tables handed out %s' % (out.get('asked'), out.get('got')))
